@@ -224,6 +224,48 @@ def run(ctx):
             ctx.violate(f"C08/schedule-dependent/{sig_cfg}",
                         f"the same seed under two iteration orders of the grammar's symbol sets ({s1}, {s2}) diverges at trace entry {i}: {x!r} vs {y!r}")
             return
+        # (e) history: the same classes went through an extraction and a search under OTHER field annotations before being
+        # re-declared (the documented `Cls.__init__.__annotations__[f] = ...` idiom); the search after the re-declaration must
+        # equal the search on freshly built classes that carry the new annotations from the start
+        if ctx.run_index % 3 == 0:
+            import copy
+            from ..spec import gen_refinement, render_type
+
+            cands = [(c, i) for c in spec["classes"] if c["kind"] in ("data", "plain") for i, (fn, ft) in enumerate(c["fields"])
+                     if fn.startswith("f") and (ft[1] if ft[0] == "ann" else ft)[0] in ("int", "float", "str", "bool") and not (ft[0] == "ann" and ft[2][0].startswith("Dependent"))]
+            if cands:
+                c, i = cands[H.draw(len(cands))]
+                kindn = H.pick(["int", "bool", "ann-int", "ann-str", "ann-float"])
+                new = [kindn] if not kindn.startswith("ann-") else ["ann", [kindn[4:]], gen_refinement(H, kindn[4:], FEAT)]
+                if new != c["fields"][i][1]:
+                    spec2 = copy.deepcopy(spec)
+                    for c2 in spec2["classes"]:
+                        if c2["name"] == c["name"]:
+                            c2["fields"][i] = [c["fields"][i][0], new]
+                    set_order_seed(s1)
+                    reset_gene_read_cap(200000)
+                    with installed_clock(clock):
+                        tY, bY, _ = run_search(spec2, cfg)  # fresh classes with the new annotations
+                    built.append(bY)
+                    bX = Built(spec)  # old annotations first: extraction + a search, then re-declare and search again
+                    built.append(bX)
+                    with installed_clock(clock):
+                        run_search(spec, cfg, bX, None, clock)
+                        cls = bX.cls[c["name"]]
+                        tobj = eval(render_type(new, []), bX.module.__dict__)
+                        cls.__init__.__annotations__[c["fields"][i][0]] = tobj
+                        if c["fields"][i][0] in getattr(cls, "__annotations__", {}):
+                            cls.__annotations__[c["fields"][i][0]] = tobj
+                        reset_gene_read_cap(200000)
+                        tX, _, _ = run_search(spec2, cfg, bX, None, clock)
+                    ctx.faults["carry_over"] += 1
+                    ctx.stat("redeclaration_histories")
+                    if tX != tY:
+                        i_, x, y = first_diff(tX, tY)
+                        ctx.violate(f"C08/history-dependent/after-redeclaration/{sig_cfg}",
+                                    f"a search on classes whose field {c['name']}.{c['fields'][i][0]} was re-declared after an earlier extraction differs from the same "
+                                    f"seeded search on fresh classes with that declaration, at trace entry {i_}: {x!r} vs {y!r}")
+                        return
         # (d) fresh interpreters
         if ctx.run_index % 25 == 3 or (cfg["algo"] == "gp" and cfg["rep"] != "tree" and ctx.run_index % 5 == 1):
             envs = fresh_traces(spec, cfg, 3 if ctx.tier == "quick" else 6)
